@@ -869,12 +869,19 @@ class DFA:
         if isinstance(chained_dfa.starting_state, DFProxyState):
             # Add an extra state that will represent the condition point properly (see docs for equivalent_on_values)
             valid, to_else = chained_dfa.starting_state.equivalent_on_values()
+            only_acts = isinstance(chained_dfa.starting_state, DFConditionPoint) and not valid and not to_else
+            if only_acts:
+                # None of the branches starts with a match (they only act, yield or finish): the condition is evaluated on whatever the
+                # preceding statement does not continue with, without consuming it (like a yield that ends a block)
+                valid = {DFTransition.Else}
             if valid:
                 fake_start = DFState()
                 chained_dfa.add(fake_start)
 
                 fake_start[valid] = chained_dfa.starting_state
                 fake_initial_transition = fake_start[valid].fallthrough(True)
+                if only_acts:
+                    fake_initial_transition.handles_else()
                 if to_else: # nothing is left for the error side when the branches between them take every byte and end-of-input
                     fake_start[to_else] = chained_dfa.starting_state
                     fake_start[to_else].fallthrough(True).handles_else()
